@@ -48,12 +48,14 @@ func labelLen(rng *rand.Rand) int {
 
 var unicodeLabels = []string{"bücher", "пример", "例え", "münchen", "ß", "ǆ", "İ", "é", "á", "😀", "ａｂｃ", "１２３",
 	"‍", "­", "xn--bcher-kva", "xn--e1afmkfd", "xn--zz", "xn---", "xn--", "xn--a-", "XN--BCHER-KVA", "xn--a", "xn--0",
-	"faß", "ﬁ", "Ⅷ", "٣", "א", "ab̈c"}
+	"faß", "ﬁ", "Ⅷ", "٣", "א", "ab̈c",
+	// nested ACE: idna.ToASCII is not idempotent
+	"xn--xn--abc--", "xn--xn--b--", "XN--xn--abc--", "xn--XN--abc--", "xn--xn--xn--a---", "xn--abc-", "xn--xn--bcher-kva-", "xn--xn---", "xn--xn----"}
 
 var dots = []string{".", ".", ".", ".", "。", "．", "｡", ".."}
 
 var junkTokens = []string{"-", "_", ".", "..", " ", "!", "*", "/", "@", ":", "\x00", "\x7f", "\xff", "\x80", "\xc3", "é", "。", "．",
-	"xn--", "_tcp", "_", "__", "0", "9", "a", "Z", "-a", "a-", "1.", ".1", "\t", "%", "[", "]"}
+	"xn--", "xn--xn--", "--", "_tcp", "_", "__", "0", "9", "a", "Z", "-a", "a-", "1.", ".1", "\t", "%", "[", "]"}
 
 func validName(rng *rand.Rand) string {
 	n := 1 + rng.IntN(5)
@@ -283,6 +285,9 @@ func Generate(rng *rand.Rand) string {
 		s = validName(rng)
 		s = Mutate(rng, s, junkTokens)
 	}
+	if rng.IntN(12) == 0 && len(s) > 0 {
+		s = ACEWraps(s, rng)[rng.IntN(2)]
+	}
 	for rng.IntN(2) == 0 {
 		s = Mutate(rng, s, junkTokens)
 	}
@@ -390,6 +395,10 @@ func record(args []string) error {
 	hcalls = History(hist, vh.Rand(32), func(fn, key, what string, detail any) {
 		res.Mismatch(fmt.Sprintf("%s(%s)", fn, shortQ(key)), what+" [T history]", detail)
 	})
-	return res.Close(map[string]any{"events": tr.N, "inputs": dd.N(), "evaluations": dd.N()*6 + hcalls, "history_calls": hcalls, "inexpressible_skipped": skipped, "too_long_for_trace_skipped": tooLong, "huge_inputs": huge,
+	vcalls, vpairs := Volume(vh.Rand(34), func(fn, key, what string, detail any) {
+		res.Mismatch(fmt.Sprintf("%s(%s)", fn, shortQ(key)), what+" [T volume]", detail)
+	})
+	hcalls += vcalls
+	return res.Close(map[string]any{"events": tr.N, "inputs": dd.N(), "evaluations": dd.N()*6 + hcalls, "history_calls": hcalls, "checksum_colliding_pairs": vpairs, "inexpressible_skipped": skipped, "too_long_for_trace_skipped": tooLong, "huge_inputs": huge,
 		"toascii_failed": failed, "accepted_by_grammar": accepted, "non_ascii_inputs": nonASCII})
 }
